@@ -23,6 +23,8 @@ type cmdIn struct {
 	Limit  int         `json:"limit"`
 	Opts   []bool      `json:"opts"` // [timestamp, container, color]
 	Q      Ints        `json:"q"`    // the query text (filled in here)
+	// BadFlag: one more command-line argument that the command must reject (a malformed flag value)
+	BadFlag Ints `json:"badflag"`
 }
 
 func (famCmdgen) Gen(r *rand.Rand, n int, _ map[string]string) []any {
@@ -58,7 +60,7 @@ func (famCmdgen) Gen(r *rand.Rand, n int, _ map[string]string) []any {
 			}
 			sortInts(secs)
 			for j, s := range secs {
-				msg := fmt.Sprintf("c%d-%d %s", c, j+1, pick(r, []string{"ok", "err", "warn x", ""}))
+				msg := fmt.Sprintf("c%d-%d %s", c, j+1, pick(r, []string{"ok", "err", "warn x", "", "100% done", "%s %d %%", "50%"}))
 				if r.Intn(8) == 0 {
 					msg += "\r\n"
 				}
@@ -104,6 +106,11 @@ func (famCmdgen) Gen(r *rand.Rand, n int, _ map[string]string) []any {
 			}
 		}
 		in.Limit = []int{-1, -1, 1, 2, 3, 5, 100}[r.Intn(7)]
+		in.BadFlag = Ints{}
+		if r.Intn(10) == 0 {
+			// the help texts of the flags ("now", "`end - since`") are not values; nor are these
+			in.BadFlag = B(pick(r, []string{"--end=now", "--start=`end - since`", "--step=abc", "--step=-5s", "--limit=x", "--end=yesterday", "--start=1e400", "--step=0"}))
+		}
 		out = append(out, in)
 	}
 	return out
@@ -130,6 +137,9 @@ func (famCmdgen) Exec(scn int, raw json.RawMessage, t *Trace, _ map[string]strin
 		in.Stages = []stageIn{}
 	}
 	in.Q = B(renderLogQuery(in.Sel, in.Stages))
+	if in.BadFlag == nil {
+		in.BadFlag = Ints{}
+	}
 	done, err := json.Marshal(in)
 	if err != nil {
 		return err
